@@ -26,10 +26,10 @@ type c10Case struct {
 	PatchForm string   `json:"patch_form"` // absent | unnamed | named | meta | dot | blank
 	FileForms []string `json:"file_forms"` // forms under which the file imports c10Path, in order: unnamed | nm | other | dot | blank | mv
 	Layout    string   `json:"layout"`
-	Pkg       string   `json:"pkg"`       // absent | same | different | near-misses, see c10PkgNames
+	Pkg       string   `json:"pkg"`            // absent | same | different | near-misses, see c10PkgNames
 	Body      string   `json:"body,omitempty"` // "" expr->expr | expr-to-stmts | stmts | decl
-	LineKind  string   `json:"line_kind"` // context | minus
-	Second    string   `json:"second"`    // none | satisfied | unsatisfied | wrongform
+	LineKind  string   `json:"line_kind"`      // context | minus
+	Second    string   `json:"second"`         // none | satisfied | unsatisfied | wrongform
 	// Extra unrelated imports (random part).
 	Extra []string `json:"extra,omitempty"`
 }
